@@ -33,10 +33,10 @@ TARGETS = ('fresh', 'same', 'same-order', 'other-order', 'extra-below',
 
 def plan(tier, seed):
     specs = []
-    n = 48 if tier == 'thorough' else 14
+    n = 128 if tier == 'thorough' else 14
     for k in range(n):
         specs.append(dict(kind='scen', sub=k,
-                          rounds=600 if tier == 'thorough' else 350,
+                          rounds=4000 if tier == 'thorough' else 350,
                           hashseed=k))
     meta = dict(
         rule=RULE,
